@@ -1,4 +1,5 @@
 """C02 - basic D-set queries are total for every index pair and chamber (DESIGN 4/C02)."""
+import itertools
 from ..core import *
 from ..templates import *
 from ..t5 import T5
@@ -54,6 +55,7 @@ def run(ctx):
     ctx.floor("parameter-origin panic sites in the query scope", n, 20)
     query_ranges(ctx)
     default_m_table(ctx, ctx.facts.getters())
+    none_outside_ranges(ctx, ctx.facts.getters())
     collect_orbits_shape(ctx, ctx.facts.getters())
     ctx.clauses.append("storage layout of the operation table: size * (dim + 1) cells, idx a bijection, grow() consistent (T4, expressions evaluated)")
     storage_layout(ctx, "T4-storage-layout", ctx.facts.getters())
@@ -108,6 +110,80 @@ def default_m_table(ctx, g):
                         " (m is symmetric in its two indices)" if want == 0 else "")
     ctx.ob("T4-default-m-table", b.name, "decision table", "ok" if not bad and n else "violation",
            "1 on the diagonal, 0 for adjacent indices in either order, 2 otherwise, None outside the ranges (%d argument triples)" % n if not bad and n else (bad or "nothing evaluated"))
+
+
+def delegated(atom, env, me):
+    """`self.r(i, j, d)?` / `if let Some(..) = self.op(i, d)`: the success arm of a sibling accessor called on self with integer arguments that are
+    out of range for it is not taken (that accessor is itself in the scope of this rule); None when the atom is not of that form"""
+    if atom[0] != "variant":
+        return None
+    t = atom[1]
+    success = 1         # Option::Some
+    while t[0] == "call" and t[1].endswith("Try::branch"):
+        t = t[2][0]
+        success = 0     # ControlFlow::Continue
+    if atom[2] != success:
+        return None
+    if t[0] != "call" or t[1].split("::")[-1] not in ("op", "r", "v", "m") or not t[1].startswith(("dsets::DSet::", "dsyms::DSym::", "<dsets::", "<dsyms::")):
+        return None
+    args = t[2]
+    if len(args) < 3 or strip(args[0]) != me or any(strip(a) not in env for a in args[1:]):
+        return None
+    vals = [env[strip(a)] for a in args[1:]]
+    if any(v > 3 for v in vals[:-1]) or vals[-1] < 1 or vals[-1] > 5:
+        return False
+    return None
+
+
+def none_outside_ranges(ctx, g):
+    """"out-of-range arguments give None": in every accessor that builds its own answer (op of the two set representations, r / v of the two
+    symbol representations, the trait defaults r and m), no path that ends in a `Some(..)` is possible for an index > dim, for chamber 0 or for a
+    chamber > size.  Decided by evaluating the branch conditions along every path to a return for all 0 <= i, j <= 4, d in {0, 1, 5, 6} on a
+    D-set of dimension 3 and size 5; a condition that is not a function of the arguments (a table lookup) counts as possibly true."""
+    ctx.clauses.append("an index > dim(), chamber 0 or a chamber > size() reaches only `None` returns in op / r / v / m (T4, path conditions evaluated)")
+    n = 0
+    for name in scope(ctx):
+        b = ctx.facts.bodies[name]
+        rets = {}
+        other = False
+        for bi, si, s in b.assigns():
+            if s["place"]["l"] == 0 and not s["place"]["p"]:
+                v = norm(b.rv_origin(s["rv"]), g)
+                if v[0] == "agg" and v[1].endswith("Option::None"):
+                    rets[bi] = False
+                elif v[0] == "agg" and v[1].endswith("Option::Some"):
+                    rets[bi] = True
+                else:
+                    other = True
+        if not any(rets.values()) or name.endswith("::walk"):
+            continue    # pure delegation (PartialDSym::op -> dset.op) or `?`-propagation (m = r? * v?): None whenever the delegate is None
+        ctx.scan([b])
+        ints = [k for k in range(2, b.argc + 1) if b.local_ty(k) in INT_TYS]
+        me = ("param", 1, b.debug.get(1, ""))
+        ps = [("param", k, b.debug.get(k, "")) for k in ints]
+        base = {("call", "dsets::DSet::dim", (me,)): 3, ("call", "dsets::DSet::size", (me,)): 5, ("field", me, "dim"): 3, ("field", me, "size"): 5}
+        paths = paths_to(b, 0, set(rets), g=g)
+        bad = None
+        cnt = 0
+        for vals in itertools.product(*([range(5)] * (len(ps) - 1) + [(0, 1, 5, 6)])):
+            env = dict(base)
+            env.update(dict(zip(ps, vals)))
+            outside = any(v > 3 for v in vals[:-1]) or vals[-1] < 1 or vals[-1] > 5
+            if not outside:
+                continue
+            cnt += 1
+            for tgt, atoms in paths:
+                if not rets[tgt]:
+                    continue
+                ev = [delegated(a, env, me) if delegated(a, env, me) is not None else eval_atom_env(a, env) for a in atoms if not is_ovf_atom(a)]
+                if all(e is None or e for e in ev):
+                    names = [p[2] for p in ps]
+                    bad = bad or "%s(%s) on a D-set of dimension 3 and size 5 can reach a `Some(..)` return (%s): out-of-range arguments must give None" % (
+                        name.split("::")[-1], ", ".join("%s = %d" % (a_, v_) for a_, v_ in zip(names, vals)), b.span_of(tgt))
+        n += 1
+        ctx.ob("T4-none-outside-ranges", name, "Some(..) returns", "ok" if not bad and cnt else "violation",
+               "no Some(..) return is reachable for any of %d out-of-range argument tuples (%d paths)" % (cnt, len(paths)) if not bad and cnt else (bad or "nothing evaluated"))
+    ctx.floor("accessors that build their own Option", n, 8)
 
 
 def collect_orbits_shape(ctx, g):
